@@ -49,10 +49,11 @@ UnquoteIfPossible(t) == IF t # E /\ t[1] = QUOTE THEN Unquote(t) ELSE Okv(t)
 (* of samples used by the generators is classified, the rest is Unspec in   *)
 (* callers that care.                                                       *)
 IsPrintAscii(c) == c >= 32 /\ c <= 126
-NonPrintSamples == {133, 160, 173, 8232, 8233, 65279, 65533 + 1114112}   \* NEL, NBSP, SHY, LS, PS, BOM
+NonPrintSamples == {133, 160, 173, 8232, 8233, 65279, 12288}   \* NEL, NBSP, SHY, LS, PS, BOM, ideographic space
 PrintSamples == {233, 228, 252, 19990, 30028, 955, 128512, 8364, 65533}   \* e-acute, a-uml, u-uml, CJK, lambda, emoji, euro, U+FFFD
 IsPrintKnown(c) == c < 128 \/ c \in NonPrintSamples \/ c \in PrintSamples \/ c >= BADBYTE
-IsPrintC(c) == IF c < 128 THEN IsPrintAscii(c) ELSE c \in PrintSamples
+\* go-flags' isPrint ranges over the string: a byte that is not valid UTF-8 arrives as U+FFFD, which is printable
+IsPrintC(c) == IF c < 128 THEN IsPrintAscii(c) ELSE IF c >= BADBYTE THEN TRUE ELSE c \in PrintSamples
 IsPrintS(s) == \A i \in 1..Len(s) : IsPrintC(s[i])
 IsPrintKnownS(s) == \A i \in 1..Len(s) : IsPrintKnown(s[i])
 
